@@ -36,6 +36,10 @@ def call_method(I, st, recv, name, args, kwargs, fr, k):
         return B.unsupported_path(I, s2, f"method {name} on {recv!r}")
     if name not in STR_METHODS:
         return other(st)
+    if fr.spec:
+        return on_str(st)         # specs have total semantics: a string method in a spec is applied to the string view
+    if z3.is_true(z3.simplify(isstr)) or not I.feasible(st, z3.Not(isstr)):
+        return on_str(st)
     return I.branch(st, isstr, on_str, other)
 
 
@@ -459,3 +463,27 @@ def r_dict_pop(I, st, recv, args, kwargs, fr, k):
 
 
 REF_METHODS["pop"] = r_dict_pop
+
+
+def m_translate(I, st, recv, args, kwargs, fr, k):
+    """str.translate(table) for a literal {code point: replacement str} table: simultaneous replacement; encoded as a
+    chain of replace_all, which is the same thing when no replacement text contains a translated character"""
+    tbl = B.concrete_dict(I, st, args[0])
+    if tbl is None:
+        raise Unsupported("translate with a symbolic table")
+    pairs = []
+    for key, v in tbl.items():
+        rv = B.concrete_key(I, st, v) if isinstance(v, Sym) else B._NOKEY
+        if not isinstance(key, int) or not isinstance(rv, str):
+            raise Unsupported("translate table entries must be int -> str literals")
+        pairs.append((chr(key), rv))
+    if any(c in rv for c, _ in pairs for _, rv in pairs):
+        raise Unsupported("translate: a replacement contains a translated character")
+    s_ = get_s(recv.t)
+    for c, rv in pairs:
+        a_, b_ = z3.StringVal(c), z3.StringVal(rv)
+        s_ = z3.SeqRef(z3.Z3_mk_seq_replace_all(s_.ctx_ref(), s_.as_ast(), a_.as_ast(), b_.as_ast()), s_.ctx)
+    return k(st, Sym(mk_str(s_)))
+
+
+STR_METHODS["translate"] = m_translate
